@@ -10,6 +10,12 @@ mod chrony_poller;
 mod shm_writer;
 pub mod signal;
 pub mod thread_manager;
+#[cfg(clockbound_verif)]
+pub mod verif;
+#[cfg(clockbound_verif)]
+pub use chrony_poller::verif_api as verif_poller;
+#[cfg(clockbound_verif)]
+pub use shm_writer::verif_api as verif_writer;
 
 use chrony_candm::reply::Tracking;
 
